@@ -33,6 +33,7 @@ def run(ctx):
     ctx.trusted += ["SHA-256", "std::io::Cursor::read_exact"]
     ctx.assumptions += ["N: canonicity, completeness and soundness proper (C12.1 are necessary conditions only)"]
     c12_1(ctx)
+    c12_1_verdict(ctx)
     c12_2(ctx)
     c12_3(ctx)
     c12_4(ctx)
@@ -342,3 +343,67 @@ def c12_4(ctx):
         ctx.ob(R, "wheel:" + nm, ok and neg == negated and (len(maps) == 1) == negated,
                "%s passes (proof, item, root) in their roles and returns the %s verdict" % (nm, "negated" if negated else "plain"),
                found={"args_ok": ok, "negation": neg, "map_calls": len(maps)})
+
+
+def c12_1_verdict(ctx):
+    """(a) validate_merkle_proof has exactly one accepting path -- proof parsed, rebuilt root equal to the given root, lookup
+    succeeded -- and returns the lookup's own inclusion flag; a lookup error (a truncated node on the item's route) is an error,
+    never a verdict.  (b) the lookup decides inclusion only by comparing the complete 32-byte stored leaf with the item:
+    Empty => false; Leaf => stored == item; a pair of leaves => left == item || right == item; otherwise recursion on the
+    branch selected by get_bit(item, depth)."""
+    R = "C12.1"
+    b = U.body(ctx, R, MT + "validate_merkle_proof")
+    if b:
+        try:
+            rows = {(frozenset(map(str, f)), str(r) if str(r).startswith("('Ok'") else "Err") for f, r, _ in apnf.paths_of(b, want=("Ok", "Err"))}
+        except P.Budget:
+            rows = None
+        fp = "('MerkleSet::from_proof', 'proof')"
+        gp = "('MerkleSet::generate_proof', %s, 'item')" % fp
+        ne = "(('ne', ('MerkleSet::get_root', %s), 'root'), %%s)" % fp
+        exp = {
+            (frozenset({"(%s, 'ok')" % fp, ne % "False", "(%s, 'ok')" % gp}), "('Ok', ('.0', %s))" % gp),
+            (frozenset({"(%s, 'ok')" % fp, ne % "False", "(%s, 'err')" % gp}), "Err"),
+            (frozenset({"(%s, 'ok')" % fp, ne % "True"}), "Err"),
+            (frozenset({"(%s, 'err')" % fp}), "Err"),
+        }
+        ctx.ob(R, "validate:verdict-exact", rows == exp,
+               "validate_merkle_proof = from_proof(proof)?; root must match; generate_proof(item)? .0 -- lookup errors are errors, not verdicts",
+               found=None if rows == exp else sorted(str(x)[:300] for x in (rows or set()) ^ exp)[:4], where=b.fn.sp)
+    b = U.body(ctx, R, MT + "MerkleSet::generate_proof_impl")
+    if b:
+        try:
+            rows = [(frozenset(map(str, f)), str(r) if str(r).startswith("('Ok'") else "('Ok', %s)" % str(r))
+                    for f, r, _ in apnf.paths_of(b, want=("Ok", "call"))]
+        except P.Budget:
+            return ctx.missing(R, "lookup:inclusion-decision", "path budget exceeded")
+        cur = "('index', ('.nodes_vec', 'self'), 'current_node_index')"
+        kind = "(('.0', %s), '%%s')" % cur
+        child = lambda k: "('index', ('.nodes_vec', 'self'), ('as usize', ('.%d', ('as:Middle', ('.0', %s)))))" % (k, cur)
+        eq = lambda node: "('eq', ('.1', %s), 'leaf')" % node
+        bad = []
+        classes = set()
+        for f, r in rows:
+            if r == "('Ok', 0)" and (kind % "Empty") in f:
+                classes.add("empty")
+            elif r == "('Ok', %s)" % eq(cur) and (kind % "Leaf") in f:
+                classes.add("leaf")
+            elif r == "('Ok', %s)" % eq(child(1)) and "(%s, False)" % eq(child(0)) in f and (kind % "Middle") in f:
+                classes.add("pair-right")
+            elif r == "('Ok', 1)" and "(%s, True)" % eq(child(0)) in f and (kind % "Middle") in f:
+                classes.add("pair-left")
+            elif r.startswith("('Ok', ('MerkleSet::generate_proof_impl', 'self', ('as usize', ('.") and (kind % "Middle") in f and \
+                    any(x.startswith("(('get_bit', 'leaf', 'depth'), ") for x in f) and r.endswith("'leaf', 'proof', ('.0', ('AddWithOverflow', 'depth', 1))))"):
+                side = [x for x in f if x.startswith("(('get_bit', 'leaf', 'depth'), ")][0].endswith("True)")
+                want_child = ".1" if side else ".0"
+                if ("('as usize', ('%s', ('as:Middle'" % want_child) in r:
+                    classes.add("recurse-" + ("right" if side else "left"))
+                else:
+                    bad.append("descends into the wrong child: " + r[:160])
+            else:
+                bad.append(r[:200])
+        need = {"empty", "leaf", "pair-left", "pair-right", "recurse-left", "recurse-right"}
+        ctx.ob(R, "lookup:inclusion-decision", not bad and classes == need,
+               "generate_proof_impl reports inclusion only through complete 32-byte equality of the stored leaf with the item "
+               "(Empty=>false, Leaf, pair of leaves, else recurse on get_bit(item, depth) with depth+1)",
+               found=(bad[:3] or sorted(need - classes)) or None, where=b.fn.sp)
